@@ -292,8 +292,9 @@ func (e *Enc) applyContractFV(fr *Frame, ct *Contract, key string, sig *types.Si
 		for _, ca := range fr.contract.Asserts {
 			if ca.Kind == "call" && ca.N == n && strings.HasSuffix(short, sanitize(ca.Callee)) {
 				henv := e.hostEnv(fr)
-				f := e.evalBoolEnv(henv, ca.Clause.Expr, st, fr.entry, ca.Clause)
-				e.ob(fr, "assert", fmt.Sprintf("assert@%s#%d", ca.Callee, n), rb, f, ca.Clause.Src, sitePos(site))
+				f, watch := e.evalBoolWatch(henv, ca.Clause.Expr, st, fr.entry, ca.Clause)
+				o := e.ob(fr, "assert", fmt.Sprintf("assert@%s#%d", ca.Callee, n), rb, f, ca.Clause.Src, sitePos(site))
+				o.Watch = append(append(e.paramWatch(fr.top), watch...), e.contractWatch(fr, st, fr.top.entry)...)
 			}
 		}
 	}
@@ -884,6 +885,9 @@ func (e *Enc) loopModSet(fr *Frame, body map[*ssa.BasicBlock]bool) func(string) 
 }
 
 func (e *Enc) addContractMods(ct *Contract, set map[string]bool, all, allRepo *bool, pats, logs *[]string) {
+	if ct.Logged != "" {
+		*logs = append(*logs, ct.Logged)
+	}
 	if ct.Pure {
 		return
 	}
